@@ -62,7 +62,14 @@ function make_stream(bufs, mode) {
     return s;
 }
 
-async function observe(stream, csv_path, c) {
+// an exception thrown inside a stream event handler (e.g. the reader's internal assert) is not delivered through any promise:
+// it surfaces as an uncaughtException. It is reported as the outcome of the run in progress instead of killing the driver.
+let on_uncaught = null;
+process.on('uncaughtException', (e) => {
+    if (on_uncaught !== null) { const f = on_uncaught; on_uncaught = null; f(e); } else { console.error(e); process.exit(3); }
+});
+
+async function observe_inner(stream, csv_path, c) {
     try {
         const it = new rbql_csv.CSVRecordIterator(stream, csv_path, c.encoding, c.delim, c.policy, c.header, c.comment);
         if (c.modifier !== null && c.modifier !== undefined) it.handle_query_modifier(c.modifier ? 'header' : 'noheader');
@@ -73,6 +80,16 @@ async function observe(stream, csv_path, c) {
     } catch (e) {
         return canon_error(e);
     }
+}
+
+function observe(stream, csv_path, c) {
+    return new Promise((resolve) => {
+        on_uncaught = (e) => {
+            if (stream !== null) { try { stream.removeAllListeners('data'); stream.removeAllListeners('end'); stream.destroy(); } catch (e2) {} }
+            const r = canon_error(e); r[1] = 'uncaught ' + r[1]; resolve(r);
+        };
+        observe_inner(stream, csv_path, c).then((r) => { on_uncaught = null; resolve(r); });
+    });
 }
 
 function* partitions(arr) {
